@@ -165,6 +165,15 @@ func concInstances(seed int64) []instance {
 	}
 	// one configuration value (and one *Properties) shared by two writers: creating a writer
 	// must not leave anything behind in the caller's configuration that changes the next one
+	var rawL2 []byte
+	{
+		var b bytes.Buffer
+		w, _ := lzma.Writer2Config{DictCap: 65536}.NewWriter2(&b)
+		w.Write(rawWrapped)
+		w.Close()
+		rawL2 = b.Bytes()
+	}
+	rawXZ := libXZ(XZCfg{LC: 3, PB: 2, DictCap: 65536, BufSize: 4096, Check: 1}, rawThenText)
 	sharedProps := &lzma.Properties{LC: 2, LP: 1, PB: 3}
 	sharedXZ := xz.WriterConfig{Properties: sharedProps, DictCap: 65536, CheckSum: xz.CRC32, BlockSize: 11000}
 	sharedL2 := lzma.Writer2Config{Properties: sharedProps, DictCap: 65536}
@@ -205,6 +214,9 @@ func concInstances(seed int64) []instance {
 		mkWriter("lzma-writer-size-mismatch-2", func(w io.Writer) (wcl, error) {
 			return lzma.WriterConfig{DictCap: 4096, SizeInHeader: true, Size: int64(len(rnd)) + 5}.NewWriter(w)
 		}, rnd, false),
+		// readers of stored (raw) chunks: a path of its own in the LZMA2 reader
+		mkReader("lzma2-reader-raw-chunks", func(r io.Reader) (io.Reader, error) { return lzma.Reader2Config{DictCap: 65536}.NewReader2(r) }, rawL2, len(rawWrapped)),
+		mkReader("xz-reader-raw-chunks", func(r io.Reader) (io.Reader, error) { return xz.NewReader(r) }, rawXZ, len(rawThenText)),
 		mkWriter("xz-writer-crc32-blocks", func(w io.Writer) (wcl, error) {
 			return XZCfg{LC: 3, PB: 2, DictCap: 4096, BufSize: 4096, Check: 1, BlockSize: 700}.lib().NewWriter(w)
 		}, text, false),
